@@ -333,7 +333,59 @@ def load(patches=None, stub_embed=True):
 
     if stub_embed:
         install_embed_stub(gbigsmiles)
+    snapshot_state()
     return gbigsmiles
+
+
+# --- process state -----------------------------------------------------------------
+# Every explored path stands for a run in a fresh process.  Mutable module globals and class attributes of the package
+# (caches, registries, "already warned" flags ...) are therefore put back to their import-time values before each path;
+# state carried between calls WITHIN a path is exactly what the multi-step harnesses look for.
+
+_STATE = []
+
+
+def snapshot_state():
+    import copy
+    import inspect
+
+    _STATE.clear()
+    simple = (type(None), bool, int, float, str)
+    for mname, m in list(sys.modules.items()):
+        if not (mname == PKG or mname.startswith(PKG + ".")) or m is None:
+            continue
+        owners = [m] + [v for v in vars(m).values() if inspect.isclass(v) and getattr(v, "__module__", None) == mname]
+        for owner in owners:
+            for name, val in list(vars(owner).items()):
+                if name.startswith("__") or name.startswith("_sx_"):
+                    continue
+                if isinstance(val, (dict, list, set)) or (owner is m and isinstance(val, simple) and not name.isupper()):
+                    try:
+                        _STATE.append((owner, name, copy.deepcopy(val)))
+                    except Exception:
+                        pass
+
+
+def restore_state():
+    import copy
+
+    for owner, name, val in _STATE:
+        try:
+            cur = getattr(owner, name, None)
+            if type(cur) is type(val) and cur == val:
+                continue
+            if isinstance(val, dict) and isinstance(cur, dict):
+                cur.clear()
+                cur.update(copy.deepcopy(val))  # in place: other names bound to the same object stay in step
+            elif isinstance(val, list) and isinstance(cur, list):
+                cur[:] = copy.deepcopy(val)
+            elif isinstance(val, set) and isinstance(cur, set):
+                cur.clear()
+                cur.update(copy.deepcopy(val))
+            else:
+                setattr(owner, name, copy.deepcopy(val))
+        except Exception:
+            pass
 
 
 class _AllChemStub:
